@@ -33,6 +33,99 @@ def prune(root, chosen, level=1):
     return rebuild(root, lambda c: rc.make_pruned(c, level) if c.hash in chosen and c.mask >> (level - 1) == 0 else None)
 
 
+def prune_deep(root, chosen, base=1):
+    """like prune(), but also below embedded Merkle cells: a subtree with d Merkle cells between `root` (inclusive) and itself is replaced
+    by a pruned branch of level base+d (so masks 0b010, 0b100 and ORed masks occur); embedded Merkle cells are recomputed over their new
+    children (their stored hashes are level-0 hashes and do not change).  Subtrees that cannot be pruned at their level are kept."""
+    memo = {}
+
+    def go(c, level):
+        k = (c.hash, level)
+        if k in memo:
+            return memo[k]
+        r = c
+        if c.hash in chosen and level <= 3 and c.mask >> (level - 1) == 0 and c.hash != root.hash:
+            r = rc.make_pruned(c, level)
+        elif c.type == rc.ORD and c.refs:
+            kids = [go(x, level) for x in c.refs]
+            if any(a is not b for a, b in zip(kids, c.refs)):
+                r = rc.RC(c.bits, kids)
+        elif c.type == rc.MPROOF:
+            kid = go(c.refs[0], level + 1)
+            if kid is not c.refs[0]:
+                r = rc.make_merkle_proof(kid)
+        elif c.type == rc.MUPDATE:
+            a, b = go(c.refs[0], level + 1), go(c.refs[1], level + 1)
+            if a is not c.refs[0] or b is not c.refs[1]:
+                r = rc.make_merkle_update(a, b)
+        memo[k] = r
+        return r
+    return go(root, base)
+
+
+def rebuild_deep(root, target_hash, m):
+    """copy of the tree with the cell `target_hash` replaced by m wherever it occurs, embedded Merkle cells recomputed over the changed child"""
+    memo = {}
+
+    def go(c):
+        if c.hash in memo:
+            return memo[c.hash]
+        if c.hash == target_hash:
+            r = m
+        elif c.type == rc.ORD and c.refs:
+            kids = [go(x) for x in c.refs]
+            r = rc.RC(c.bits, kids) if any(a is not b for a, b in zip(kids, c.refs)) else c
+        elif c.type == rc.MPROOF:
+            kid = go(c.refs[0])
+            r = rc.make_merkle_proof(kid) if kid is not c.refs[0] else c
+        elif c.type == rc.MUPDATE:
+            a, b = go(c.refs[0]), go(c.refs[1])
+            r = rc.make_merkle_update(a, b) if (a is not c.refs[0] or b is not c.refs[1]) else c
+        else:
+            r = c
+        memo[c.hash] = r
+        return r
+    return go(root)
+
+
+def nested_tree(rng, n, budget=2):
+    """ordinary level-0 tree of about n cells that embeds Merkle proof / Merkle update cells (nested up to `budget` deep) over ordinary subtrees"""
+    def sub(n, budget):
+        if n <= 1:
+            return rc.RC(gen.rand_bits(rng, rng.choice([0, 5, 40])))
+        kids = []
+        left = n - 1
+        for _ in range(rng.randint(1, min(3, left))):
+            share = max(1, left // 2 if rng.random() < 0.7 else left)
+            left = max(0, left - share)
+            t = sub(share, budget)
+            if budget > 0 and rng.random() < 0.45:
+                t = sub(share, budget - 1)
+                if rng.random() < 0.5:
+                    t = rc.make_merkle_proof(t)
+                else:
+                    t = rc.make_merkle_update(sub(max(1, share // 2), budget - 1), t)
+            kids.append(t)
+            if left == 0:
+                break
+        return rc.RC(gen.rand_bits(rng, rng.choice([1, 9, 33])), kids)
+    return sub(n, budget)
+
+
+def merkle_depths(root):
+    """{cell hash: smallest number of Merkle cells between root (inclusive) and the cell}"""
+    out = {}
+    stack = [(root, 0)]
+    while stack:
+        c, d = stack.pop()
+        if out.get(c.hash, 99) <= d:
+            continue
+        out[c.hash] = d
+        d2 = d + (1 if c.type in (rc.MPROOF, rc.MUPDATE) else 0)
+        stack.extend((x, d2) for x in c.refs)
+    return out
+
+
 def prunable(root):
     return [c for c in gen.all_cells(root) if c.hash != root.hash and c.type != rc.PRUNED]
 
@@ -93,6 +186,7 @@ class Proofs:
         import importlib
         self.cp = importlib.import_module('pytoniq_core.proof.check_proof')
         self.maxflip = 16 if R.tier == 'quick' else 64
+        self.extra_currencies = True
 
     # ---- judge helpers
     def expect_accept(self, name, f, W):
@@ -210,12 +304,89 @@ class Proofs:
                     self.expect_reject('check_proof', f'{how}:{variant}', lambda: cp.check_proof(fc, H), dict(W, mutation=how, forged_boc=rc.encode_boc([forged]) if len(gen.all_cells(forged)) < 40 else None))
                 R.case(mon.fp('gm', H, t.hash, how, m.hash))
 
+    # ---- proofs over trees that embed Merkle cells: pruning below them uses levels 2 and 3 (sparse masks)
+    def nested(self, rng):
+        R, cp = self.R, self.cp
+        tree = nested_tree(rng, rng.choice([4, 8, 16, 30]))
+        H = tree.hash
+        cells = gen.all_cells(tree)
+        depths = merkle_depths(tree)
+        cands = [c for c in cells if c.hash != H and depths[c.hash] <= 2]
+        deep = [c for c in cands if depths[c.hash] >= 1 and c.refs]
+        W0 = {'tree_boc': rc.encode_boc([tree]) if len(cells) < 40 else None, 'root_hash': H, 'class': 'nested'}
+        R.cover('nested_merkle_depth', max(depths.values()))
+        for rep in range(4):
+            pick = rng.sample(cands, rng.randint(1, min(4, len(cands)))) if cands else []
+            if deep and rep < 2:
+                pick.append(rng.choice(deep))          # a subtree of depth > 0 below an embedded Merkle cell
+            chosen = {c.hash for c in pick}
+            try:
+                child = prune_deep(tree, chosen)
+                proof = rc.make_merkle_proof(child)
+            except rc.RefError:
+                R.count('nested_reference_refused')
+                continue
+            if child.get_hash(0) != H or proof.mask != 0:
+                R.inconc('reference-pruning-invariance-broken-nested')
+                return
+            masks = sorted({c.mask for c in gen.all_cells(child) if c.type == rc.PRUNED})
+            for m in masks:
+                R.cover('nested_pruned_masks', m)
+            for route in ('builder', 'boc'):
+                st, cell = try_build(proof, route)
+                W = dict(W0, pruned=len(chosen), route=route, pruned_masks=masks, proof_boc=rc.encode_boc([proof]) if len(gen.all_cells(proof)) < 40 else None)
+                if st == 'exc':
+                    R.violation(f'honest-nested-proof-not-constructible-{route}', f'honest Merkle proof over a tree with embedded Merkle cells cannot be constructed: {cell!r}', W)
+                    continue
+                self.expect_accept('check_proof', lambda: cp.check_proof(cell, H), W)
+                self.expect_accept('check_block_header_proof', lambda: cp.check_block_header_proof(cell[0], H), W)
+                R.count('honest_nested')
+            R.case(mon.fp('np', H, tuple(sorted(chosen))), sample={'cells': len(cells), 'pruned_masks': masks, 'class': 'nested'})
+            st, cell = try_build(proof)
+            if st == 'exc':
+                continue
+            W = dict(W0, pruned=len(chosen), pruned_masks=masks)
+            # soundness below embedded Merkle cells: data/structure of an unpruned cell, stored hash/depth of a deep pruned branch
+            jobs = []
+            ords = unpruned_cells(child)
+            for t in rng.sample(ords, min(4, len(ords))):
+                for how in rng.sample(MUTATIONS, 2):
+                    m = mutate_cell(rng, t, how)
+                    if m is not None and m.hash != t.hash:
+                        jobs.append((t, how, m))
+            for t in [c for c in gen.all_cells(child) if c.type == rc.PRUNED][:4]:
+                for how in ('pruned-hash', 'pruned-depth'):
+                    try:
+                        jobs.append((t, how + f'-mask{t.mask}', forge_pruned(rng, t, how)))
+                    except rc.RefError:
+                        pass
+            for t, how, m in jobs:
+                try:
+                    bad_child = rebuild_deep(child, t.hash, m)
+                    if bad_child.get_hash(0) == H:
+                        R.count('mutation_equivalent_skipped')
+                        continue
+                    stale = rc.RC(proof.bits, (bad_child,), rc.MPROOF, validate=False)
+                    fresh = rc.make_merkle_proof(bad_child)
+                except rc.RefError:
+                    R.count('nested_forgery_invalid_in_reference')
+                    continue
+                for variant, forged in (('stale-merkle-hash', stale), ('recomputed-merkle-hash', fresh)):
+                    st3, fc = try_build(forged, rng.choice(['builder', 'boc']))
+                    if st3 == 'exc':
+                        R.count('forgeries_refused_at_construction')
+                        continue
+                    Wf = dict(W, mutation=how, forged_boc=rc.encode_boc([forged]) if len(gen.all_cells(forged)) < 40 else None)
+                    self.expect_reject('check_proof', f'nested:{how.split("-mask")[0]}:{variant}', lambda: cp.check_proof(fc, H), Wf)
+                    self.expect_reject('check_block_header_proof', f'nested:{how.split("-mask")[0]}', lambda: cp.check_block_header_proof(fc[0], H), Wf)
+                R.case(mon.fp('nm', H, t.hash, how, m.hash))
+
     # ---- block header proofs
     def block(self, rng, state_new=None, state_old=None):
         """block-shaped tree: >= 4 refs, ref 2 a Merkle update whose children are level-1 pruned branches (as in real blocks)"""
         state_new = state_new or ordinary_tree(rng, rng.choice([3, 10]))
         state_old = state_old or ordinary_tree(rng, rng.choice([3, 10]))
-        upd = rc.make_merkle_update(rc.make_pruned(state_old, 1) if rng.random() < 0.8 else state_old, rc.make_pruned(state_new, 1))
+        upd = rc.make_merkle_update(rc.make_pruned(state_old, 1) if rng.random() < 0.6 else state_old, rc.make_pruned(state_new, 1))
         info = ordinary_tree(rng, rng.choice([1, 4]))
         vflow = ordinary_tree(rng, rng.choice([1, 3]))
         extra = ordinary_tree(rng, rng.choice([1, 6, 20]))
@@ -230,7 +401,13 @@ class Proofs:
         cands = [c for c in prunable(block) if c.hash not in keep and c.type == rc.ORD]
         for _ in range(3):
             chosen = set(c.hash for c in rng.sample(cands, rng.randint(0, len(cands)))) if cands else set()
-            child = prune(block, chosen)
+            # prune_deep: cells of an unpruned old state sit below the Merkle update and are pruned at level 2
+            child = prune_deep(block, chosen)
+            if child.get_hash(0) != H:
+                R.inconc('reference-pruning-invariance-broken-header')
+                return
+            for m in {c.mask for c in gen.all_cells(child) if c.type == rc.PRUNED}:
+                R.cover('header_pruned_masks', m)
             W = {'block_boc': rc.encode_boc([block]) if len(gen.all_cells(block)) < 60 else None, 'pruned': len(chosen)}
             st, cell = try_build(child, rng.choice(['builder', 'boc']))
             if st == 'exc':
@@ -288,17 +465,35 @@ class Proofs:
         return {'addr': {'workchain_id': 0, 'address': addr_hash},
                 'storage_stat': {'used': {'cells': rng.randrange(1000), 'bits': rng.randrange(100000), 'public_cells': 0}, 'last_paid': rng.getrandbits(32),
                                  'due_payment': rng.choice([None, rng.getrandbits(40)])},
-                'storage': {'last_trans_lt': rng.getrandbits(63), 'balance': {'grams': rng.getrandbits(rng.choice([0, 30, 62]))}, 'state': state}}
+                'storage': {'last_trans_lt': rng.getrandbits(63), 'balance': self.gen_balance(rng), 'state': state}}
+
+    def gen_balance(self, rng):
+        bal = {'grams': rng.getrandbits(rng.choice([0, 30, 62]))}
+        if self.extra_currencies and rng.random() < 0.5:
+            # extra currencies: the account's balance - and with it the DepthBalanceInfo augmentation of its dictionary leaf and of every
+            # fork above it - carries a dictionary reference (the leaf then holds that reference *before* the account reference)
+            bal['other'] = {rng.choice([1, 239, 0xFFFFFFEF, rng.getrandbits(32)]): rng.getrandbits(rng.choice([1, 30, 200])) + 1
+                            for _ in range(rng.randint(1, 3))}
+        return bal
 
     def shard_state(self, rng, accounts):
         s = {'global_id': -239, 'shard_id': {'shard_pfx_bits': 0, 'workchain_id': 0, 'shard_prefix': 1 << 63}, 'seq_no': rng.getrandbits(31), 'vert_seq_no': 0,
              'gen_utime': rng.getrandbits(31), 'gen_lt': rng.getrandbits(62), 'min_ref_mc_seqno': rng.getrandbits(31),
              'out_msg_queue_info': ordinary_tree(rng, 3), 'before_split': 0, 'accounts': accounts,
              'overload_history': rng.getrandbits(64), 'underload_history': rng.getrandbits(64),
-             'total_balance': {'grams': sum((a['account'] or {'storage': {'balance': {'grams': 0}}})['storage']['balance']['grams'] for a in accounts.values())},
+             'total_balance': {'grams': sum((a['account'] or {'storage': {'balance': {'grams': 0}}})['storage']['balance']['grams'] for a in accounts.values()),
+                               'other': self.sum_other(accounts)},
              'total_validator_fees': {'grams': rng.getrandbits(30)},
              'master_ref': {'master': {'end_lt': rng.getrandbits(63), 'seq_no': rng.getrandbits(31), 'root_hash': rng.randbytes(32), 'file_hash': rng.randbytes(32)}}}
         return T.cell_of(T.enc_shard_state_unsplit, s)
+
+    @staticmethod
+    def sum_other(accounts):
+        tot = {}
+        for a in accounts.values():
+            for k, v in ((a['account'] or {}).get('storage', {}).get('balance', {}).get('other') or {}).items():
+                tot[k] = tot.get(k, 0) + v
+        return tot
 
     def account(self, rng, quick):
         from pytoniq_core.boc import Cell
@@ -354,7 +549,24 @@ class Proofs:
         R.cover('account_pruned', prune_acc)
         R.case(mon.fp('ap', block.hash, me), sample={k: W[k] for k in ('accounts', 'account_kind', 'account_pruned_in_proof')})
         # ---------------- forgeries
-        rej = lambda op, f, **kw: self.expect_reject('check_account_proof', op, f, dict(W, **kw))
+        me_bal = accounts[int.from_bytes(me, 'big')]['account']
+        R.cover('account_extra_currencies', bool(me_bal and me_bal['storage']['balance'].get('other')))
+        R.cover('state_extra_currencies', bool(self.sum_other(accounts)))
+        real = cp.check_account_proof
+
+        class _BothFlags:
+            # every forgery is presented with return_account_descr = False and = True: the flag selects what is returned, not what is checked
+            @staticmethod
+            def check_account_proof(*a):
+                flag = _BothFlags.flag
+                R.count(f'forgery_flag_{flag}')
+                return real(*a, flag) if len(a) == 4 else real(*a)
+
+        def rej(op, f, **kw):
+            for flag in (False, True):
+                _BothFlags.flag = flag
+                self.expect_reject('check_account_proof', op + (':return_account_descr' if flag else ''), f, dict(W, return_account_descr=flag, **kw))
+        cp_real, cp = cp, _BothFlags
         H = acc_cell.hash
         # (1) claimed account state whose own hash is not the committed one
         st2, pruned_claim = try_build(rc.make_pruned(acc_cell, 1))
@@ -425,7 +637,9 @@ def run(R):
               'Merkle proof (child itself, pruned branch / library cell carrying the hash, Merkle update, ordinary parent), every data-bit flip of small unpruned cells and '
               '7 structural mutations, substituted pruned hash / depth - each with the Merkle cell left stale and recomputed. Block-header proofs on block-shaped trees '
               '(ref 2 a Merkle update). Account proofs: reference-encoded ShardStateUnsplit with 1..50 accounts (none/uninit/frozen/active), block committing to it, '
-              '16 forgery operators incl. a pruned-branch cell carrying the committed hash. distinct = distinct (tree, pruning) / (tree, mutation); non-trivial = all')
+              '16 forgery operators incl. a pruned-branch cell carrying the committed hash, each with return_account_descr False and True; balances with and without '
+              'extra currencies (dictionary reference inside the DepthBalanceInfo augmentation). Nested: trees embedding Merkle proof/update cells, subtrees below them pruned '
+              'at levels 2-3 (masks 0b010, 0b100, ORed), honest proofs accepted, mutations below embedded Merkle cells rejected. distinct = distinct (tree, pruning) / (tree, mutation); non-trivial = all')
     R.assumptions = ['R1/R3 reference models (lib/refcell.py, lib/tlbref.py) written from the specs', 'a forgery the library refuses to construct counts as rejected',
                      'forgery classes outside the listed operators are not covered']
     P = Proofs(R)
@@ -435,6 +649,8 @@ def run(R):
         for i in range(ntrees):
             n = rng.choice([1, 2, 3, 4, 6, 10, 25] if quick else [1, 2, 3, 4, 5, 6, 10, 25, 60])
             P.generic(rng, ordinary_tree(rng, n), exhaustive=True)
+        for i in range((30 if quick else 1500) // R.nshards + 1):
+            P.nested(rng)
         for i in range((10 if quick else 200) // R.nshards + 1):
             P.header(rng)
         for i in range((25 if quick else 600) // R.nshards + 1):
@@ -443,6 +659,10 @@ def run(R):
         inv.uninstall()
     R.floor('honest_check_proof', 100)
     R.floor('honest_check_block_header_proof', 20)
+    R.floor('honest_nested', 40)
+    R.floor('nested_pruned_masks', 3, 'set')          # level-2 / level-3 pruned branches (sparse masks) must have occurred
+    R.floor('forgery_flag_True', 100)
+    R.floor('account_extra_currencies', 2, 'set')
     R.floor('honest_check_account_proof', 20)
     R.floor('forgery_check_proof', 300)
     R.floor('forgery_check_account_proof', 100)
